@@ -751,6 +751,8 @@ func (e *SpecEnv) evalCall(x SCall) SV {
 			e.fail("string() of non-string %v", v.Typ)
 		}
 		return SV{Term: v.Term, Typ: types.Typ[types.String]}
+	case "sprintf":
+		return e.evalSprintf(x)
 	case "itoa":
 		return SV{Term: "(itoa " + arg(0).Term + ")", Typ: types.Typ[types.String]}
 	case "atoi":
